@@ -182,15 +182,15 @@ func LoadKnown(path string) ([]KnownFinding, error) {
 
 // Result is the verdict for one property (what is cached and turned into evidence).
 type Result struct {
-	Property    string            `json:"property"`
-	Tier        string            `json:"tier"`
-	Obligations []Obligation      `json:"obligations"`
-	Floors      map[string]int    `json:"floors"`
-	Stats       map[string]int    `json:"stats"`
-	Notes       []string          `json:"notes"`
+	Property    string             `json:"property"`
+	Tier        string             `json:"tier"`
+	Obligations []Obligation       `json:"obligations"`
+	Floors      map[string]int     `json:"floors"`
+	Stats       map[string]int     `json:"stats"`
+	Notes       []string           `json:"notes"`
 	Timings     map[string]float64 `json:"timings"`
-	WallS       float64           `json:"wall_s"`
-	Panic       string            `json:"panic,omitempty"`
+	WallS       float64            `json:"wall_s"`
+	Panic       string             `json:"panic,omitempty"`
 }
 
 // Finalize sorts obligations, de-duplicates keys and applies floors (adding violated pseudo-obligations).
